@@ -1,7 +1,7 @@
 # C13 spec (see tools/props.py)
 SPEC = {
         "ready": True,
-        "sources": ["c13.cpp", "c13_xform.cpp", "c13_xform_int.cpp", "c13_xform_tiny.cpp", "c13_closest.cpp", "c13_closest_half.cpp",
+        "sources": ["c13.cpp", "c13_xform.cpp", "c13_xform_int.cpp", "c13_xform_tiny.cpp", "c13_dirty.cpp", "c13_closest.cpp", "c13_closest_half.cpp",
                     "c13_sets_half.cpp", "c13_hist_half.cpp", "c13_ext_int.cpp", "c13_ext_fp.cpp", "c13_ext_half.cpp",
                     "c13_sets_short.cpp", "c13_sets_int.cpp", "c13_sets_int64.cpp", "c13_sets_float.cpp", "c13_sets_double.cpp",
                     "c13_hist_short.cpp", "c13_hist_int.cpp", "c13_hist_int64.cpp", "c13_hist_float.cpp", "c13_hist_double.cpp"],
@@ -17,7 +17,7 @@ SPEC = {
                       "on exact wide values; every box whose per-axis (min,max) has both bounds large and of the same sign ((MAX-1,MAX), (MAX/2+1,MAX), (LOWEST,LOWEST/2-1), (LOWEST,LOWEST+1), (MAX/4,MAX/2), (LOWEST/2,LOWEST/4), (MAX,MAX), (LOWEST,LOWEST), (0,1); also Interval<signed char>/Interval<unsigned char>) is run through the predicates, membership, size, majorAxis and - wherever max+min is representable in the element type or is formed in int by integral promotion (Interval of short / char: every pair) - center; extendBy(point)/extendBy(box) histories are explored breadth-first on the real objects until no new state appears (so all history lengths "
                       "are covered for the alphabet); clip/closestPoint* are compared with the exact nearest point; transform/affineTransform (4 overloads, out-parameter forms "
                       "pre-filled, float/double boxes and Box3i/Box3s) are compared with the exact images of the 8 corners on non-negative and on signed (negative / zero-straddling) "
-                      "boxes, for affine matrices and for projective matrices with w>0, w<0 and mixed-sign w on the corners; the two transform overloads also for projective matrices whose perspective entries are 2^-K times {-1,0,1,2} (so small that their squares underflow to zero in the matrix element type; controls with a representable square) on boxes scaled by 2^K on all axes or on the axes of a mask only, where the corner images are the small-integer ones times powers of two.",
+                      "boxes, for affine matrices and for projective matrices with w>0, w<0 and mixed-sign w on the corners; the two transform overloads also for projective matrices whose perspective entries are 2^-K times {-1,0,1,2} (so small that their squares underflow to zero in the matrix element type; controls with a representable square) on boxes scaled by 2^K on all axes or on the axes of a mask only, where the corner images are the small-integer ones times powers of two. Added for the stale-object class of seeded changes: makeEmpty, makeInfinite, assignment from Box(point) / Box(min,max), extendBy after makeEmpty and the result argument of transform / affineTransform on boxes previously holding a regular, an inverted, the infinite or an all-NaN box must leave what they leave in a fresh box, in every slot.",
         "level_note": "center() is not called where max+min is not representable in the arithmetic the type performs (int/int64: signed overflow; Box<VecN<short>>: the sum is narrowed to short by Vec::operator+; floating types: the sum rounds to infinity). Bounded scope: coordinates are small integers or the ends of the element type's range (exactly representable in every element type), so rounding inside Box "
                       "itself is exercised only where size() of a partially infinite float box overflows to +inf and where center() rounds 1+LOWEST; transforms are checked for integer "
                       "affine matrices (exact, also for integer boxes) and small-integer projective matrices with w != 0 on all corners of the box (2 ulp; 'contains the image of every "
@@ -33,7 +33,7 @@ SPEC = {
                 "overlaps, majorAxis has a tie, the extendBy step starts from the empty set / lowers min / raises max / moves a bound to LOWEST or MAX / has an empty argument, the "
                 "point is outside / on the boundary (clip, closestPointOnBox: strictly inside, on the surface, equidistant faces, empty box), the matrix block is zero/sparse/full or "
                 "has a negative entry (Arvo's a>=b branch), the box has a negative coordinate / straddles zero / is an integer box, the matrix is projective with w positive / "
-                "negative / of mixed sign on the corners, the perspective entries are tiny with the sum of their squares underflowing to zero / representable, only some box axes are large, the input box is empty or infinite, the element type is half ('.generic' classes excluded)",
+                "negative / of mixed sign on the corners, the perspective entries are tiny with the sum of their squares underflowing to zero / representable, only some box axes are large, the input box is empty or infinite, the element type is half, the box an operation overwrites previously held a regular / inverted / infinite / NaN box ('.generic' classes excluded)",
         "assumptions": ["lattice coordinates are small integers, exactly representable in every element type",
                         "projective matrices are restricted to w != 0 on all corners of the box (the corner images do not exist otherwise)",
                         "integer boxes (Box3i/Box3s) are transformed by integer-valued matrices only"],
